@@ -387,7 +387,7 @@ class NF:
         if c is not None and c.denominator == 1 and -6 <= c <= 6:
             return a.pow(int(c))
         d, g = a._meta(b)
-        return Poly.atom(f"pow({a.canon()}, {b.canon()})", d, g)
+        return self._reg(Poly.atom(f"pow({a.canon()}, {b.canon()})", d, g), "pow", [a, b])
 
     def _e_Name(self, e, sc, at, depth):
         return self.name(e.id, sc, at, depth)
@@ -753,7 +753,7 @@ class NF:
             a, b = args
             return {"add": a + b, "subtract": a - b, "multiply": a * b}.get(short, a * b.inv())
         if short == "sqrt" and len(args) == 1:
-            return Poly.atom(f"pow({args[0].canon()}, 1/2)", args[0].deps, args[0].gdeps)
+            return self._reg(Poly.atom(f"pow({args[0].canon()}, 1/2)", args[0].deps, args[0].gdeps), "pow", [args[0], Poly.const(Fraction(1, 2))])
         if short in ("power", "pow") and len(args) == 2:
             return self._pow(args[0], args[1])
         if short in LINEAR and args:
